@@ -29,7 +29,8 @@ EvHash(e) == OpIdx(e[1]) * 31 + e[2] * 3 + e[3] * 5 + e[4] * 11 + e[5] * 13 + Va
              + Len(e[7]) * 19 + (IF Len(e[7]) > 0 THEN e[7][1] * 23 ELSE 0) + (IF Len(e[8]) > 0 THEN e[8][1] * 29 ELSE 0)
 RECURSIVE HistHash(_)
 HistHash(h) == IF h = <<>> THEN 0 ELSE (HistHash(Tail(h)) * 37 + EvHash(Head(h))) % 1000003
-Sel(h) == Len(h) < MaxLen - 1 \/ SelMod = 1 \/ (HistHash(h) + SelSeed) % SelMod = 0
+(* IF-THEN-ELSE, not a disjunction: TLC would take every true disjunct of an action as a separate branch *)
+Sel(h) == IF Len(h) < MaxLen - 1 THEN TRUE ELSE IF SelMod = 1 THEN TRUE ELSE (HistHash(h) + SelSeed) % SelMod = 0
 GenNext == Len(hist) < MaxLen /\ Sel(hist) /\ (\E kd \in FamKinds : OfKind(kd)) /\ rnd' = rnd
 View == <<M, S, D>>
 Emit == PrintT(<<"H", ToJson(hist')>>)
@@ -70,7 +71,7 @@ BinKinds == {"join", "meet", "widen", "narrow", "copy", "punion", "punioneq", "p
              "dunion", "dinter", "ddiff", "dcopy"}
 RichNext == /\ Len(hist) = rnd
             /\ \/ \E kd \in FamKinds \cap BinKinds : OfKind(kd)
-               \/ /\ (SelMod = 1 \/ (HistHash(hist) + SelSeed) % SelMod = 0)
+               \/ /\ (IF SelMod = 1 THEN TRUE ELSE (HistHash(hist) + SelSeed) % SelMod = 0)
                   /\ \E kd \in FamKinds \ BinKinds : OfKind(kd)
             /\ rnd' = rnd
 (* results of binary operations go to register 3 (which register receives a result is irrelevant to the containers) *)
